@@ -78,10 +78,10 @@ def split_cases(ctx, n_seq, n_adds):
         adds = base["sessions"][0]
         files = [base]
         for c1 in range(0, m + 1):
-            files.append({"det": base["det"], "opts": base["opts"], "sessions": [adds[:c1], adds[c1:]]})
+            files.append(dict(base, sessions=[adds[:c1], adds[c1:]]))
             for c2 in range(c1, m + 1):
                 if rng.random() < (1.0 if ctx.thorough else 0.35):
-                    files.append({"det": base["det"], "opts": base["opts"], "sessions": [adds[:c1], adds[c1:c2], adds[c2:]]})
+                    files.append(dict(base, sessions=[adds[:c1], adds[c1:c2], adds[c2:]]))
         cases.append({"files": files, "queries": [], "split_group": True})
     return cases
 
